@@ -7,6 +7,7 @@ import (
 	"sort"
 	"strings"
 	"time"
+	"unicode"
 
 	"github.com/Vedant9500/WTF/internal/config"
 	"github.com/Vedant9500/WTF/internal/context"
@@ -284,11 +285,11 @@ Examples:
 				if !flags.verbose {
 					score = ""
 				}
-				cmdStr := r.Command.Command
+				cmdStr := printable(r.Command.Command)
 				if len(cmdStr) > 48 {
 					cmdStr = cmdStr[:45] + "..."
 				}
-				cat := r.Command.Niche
+				cat := printable(r.Command.Niche)
 				if len(cat) > 24 {
 					cat = cat[:21] + "..."
 				}
@@ -298,16 +299,16 @@ Examples:
 		default: // list
 			fmt.Printf("Found %d matching command(s):\n\n", len(results))
 			for i, result := range results {
-				fmt.Printf("%s%d.%s %s%s%s\n", bold, i+1, reset, cyan, result.Command.Command, reset)
-				fmt.Printf("   %sDescription:%s %s\n", yellow, reset, result.Command.Description)
+				fmt.Printf("%s%d.%s %s%s%s\n", bold, i+1, reset, cyan, printable(result.Command.Command), reset)
+				fmt.Printf("   %sDescription:%s %s\n", yellow, reset, printable(result.Command.Description))
 				if len(result.Command.Keywords) > 0 && flags.verbose {
-					fmt.Printf("   %sKeywords:%s %s\n", yellow, reset, strings.Join(result.Command.Keywords, ", "))
+					fmt.Printf("   %sKeywords:%s %s\n", yellow, reset, printable(strings.Join(result.Command.Keywords, ", ")))
 				}
 				if result.Command.Niche != "" {
-					fmt.Printf("   %sCategory:%s %s\n", yellow, reset, result.Command.Niche)
+					fmt.Printf("   %sCategory:%s %s\n", yellow, reset, printable(result.Command.Niche))
 				}
 				if len(result.Command.Platform) > 0 && flags.verbose {
-					fmt.Printf("   %sPlatforms:%s %s\n", yellow, reset, strings.Join(result.Command.Platform, ", "))
+					fmt.Printf("   %sPlatforms:%s %s\n", yellow, reset, printable(strings.Join(result.Command.Platform, ", ")))
 				}
 				if flags.verbose {
 					fmt.Printf("   %sRelevance:%s %.1f\n", yellow, reset, result.Score)
@@ -320,6 +321,21 @@ Examples:
 			fmt.Printf("Search completed in %v\n", searchDuration)
 		}
 	},
+}
+
+// printable makes database text safe to write to a terminal: control characters (escape
+// sequences in particular) are dropped and tabs become spaces, so that --no-color / NO_COLOR
+// output never carries an escape sequence and a database cannot restyle or retitle the terminal.
+func printable(s string) string {
+	return strings.Map(func(r rune) rune {
+		if r == '\t' {
+			return ' '
+		}
+		if unicode.IsControl(r) {
+			return -1
+		}
+		return r
+	}, s)
 }
 
 func init() {
